@@ -5,6 +5,10 @@
    so that "valid specifier set / requirement / licence expression" in the C17 statement means the grammars those properties are
    proved about, and the enriched value is what those models print.  The header parser of the e-mail package and the pathlib tests have
    no model: they stay parameters.
+   Run against the real code by the command m.from_raw_models (RunMeta.v; stream "models" of c17.py).
+   The component models have no resource limits: what makes the real Requirement raise RecursionError (a marker nested about 450 deep,
+   finding D44) is an accepted requirement here, and numbers beyond 4300 digits are ordinary numbers (finding D10) - O_models never
+   answers ORaise for those, so [documented_on (O_models ..)] does not exclude them.
    Inputs on which a component model does not determine one documented outcome are mapped to ORaise, so that they fall outside
    [documented_on] instead of being silently read as rejections:
      Requirement: RqOracle (a marker literal with a backslash, ast.literal_eval is outside ReqModel);
